@@ -472,6 +472,16 @@ func c01PrintfCases() []c01Run {
 			}
 		}
 	}
+	// formats that end inside a directive, or carry flags and widths in unusual places, as literals, in a variable, and
+	// built at run time: a runtime error or output, never a crash
+	tails := []string{"%", "%-", "%0", "%-0", "%5", "%-5", "%05", "%-05", "%--", "%-%", "%5%", "%-s", "%-f", "%-v", "%0s", "%-0s", "%00005s", "%-00005s", "%5-s", "%s%-", "%v%-5", "%%%-", "%65536", "%-65536", "%99999999999999999999", "%-99999999999999999999", "% ", "%+", "%#", "%*", "%.", "%.5", "%-.5s", "%5.", "%\n", "%\t-"}
+	for _, t := range tails {
+		for _, pre := range []string{"", "total: %s", "%5s|%-5v|"} {
+			f := pre + t
+			out = append(out, c01Run{prog: "BEGIN { print 'pre'; printf('" + f + "', 'a', 'b', 'c'); print 'end' }", name: "printf-tail:" + f})
+			out = append(out, c01Run{prog: "BEGIN { print 'pre'; fmt = '" + f + "'; printf(fmt, 1, 2, 3); printf(fmt + fmt, 'a'); print 'end' }", name: "printf-tail-in-variable:" + f})
+		}
+	}
 	return out
 }
 
